@@ -6,6 +6,7 @@ import (
 
 	"github.com/cbehopkins/gkvlite"
 
+	"verif/internal/decoder"
 	"verif/internal/driver"
 	"verif/internal/gen"
 	"verif/internal/vfile"
@@ -30,7 +31,7 @@ func init() {
 		},
 		Run: runC09,
 		Floor: func(tier string, st map[string]int64) string {
-			for _, k := range []string{"file.writes", "file.truncates", "c09.sweep-calls", "c09.sweep/state=reopened", "c09.sweep/state=evicted", "c09.sweep/state=pending", "c09.sweep/state=partial", "op.SnapRevert", "op.CopyTo", "op.FlushRevert", "op.CollWrite", "c09.reentrant/nested-flushes", "c09.reentrant/nested-collection-writes"} {
+			for _, k := range []string{"file.writes", "file.truncates", "c09.sweep-calls", "c09.sweep/state=reopened", "c09.sweep/state=evicted", "c09.sweep/state=pending", "c09.sweep/state=partial", "op.SnapRevert", "op.CopyTo", "op.FlushRevert", "op.CollWrite", "c09.reentrant/nested-flushes", "c09.reentrant/nested-collection-writes", "c09.large-root-record-cases"} {
 				if st[k] == 0 {
 					return "no " + k + " observed"
 				}
@@ -55,6 +56,9 @@ func runC09(ctx *Ctx, idx int) Result {
 	if idx >= nh {
 		return runC09Sweep(ctx, idx, r)
 	}
+	if idx%1000 == 7 {
+		return runC09Sizes(ctx, idx, r)
+	}
 	cfg := driver.Config{ReadbackK: []int{0, 2, 5}[r.Intn(3)], KeepLog: true, CB: driver.CBMask(r.Intn(64)) &^ (driver.CBAlloc | driver.CBRef)}
 	hc := HistCfg{Steps: r.Range(25, 80), NColls: r.Range(1, 3), NKeys: r.Range(4, 12), KeyClass: gen.KeysShort, ValClass: gen.ValsMixed,
 		Prio: gen.PrioRegime(r.Intn(int(gen.NumPrioRegimes))), Mix: mixC09, MaxSnaps: 3}
@@ -64,6 +68,47 @@ func runC09(ctx *Ctx, idx int) Result {
 	nt := len(h.E.M.Flushes) >= 1 && h.Feat["flush"] && (h.Feat["flushrevert"] || h.Feat["reopen"])
 	return Result{Hash: histHash(h.E), NonTrivial: nt, Viol: violOf(h.E),
 		Sample: map[string]interface{}{"index": idx, "features": featList(h.Feat), "file_writes": h.E.F.NWrites, "file_truncates": h.E.F.NTruncs, "ops": tail(h.E.Trace, 30)}}
+}
+
+// runC09Sizes: the append-only rules across root records of unusual size: a small flush, then a root record
+// of 70-150 KiB (a few thousand collections), re-opens, further flushes, reverts - every write and truncate
+// is judged by the file monitor as in every other case.
+func runC09Sizes(ctx *Ctx, idx int, r *gen.R) Result {
+	e := driver.NewEnv(fmt.Sprintf("c09sz-%d", idx), driver.Config{})
+	e.SetCollection("first", "")
+	e.SetItem("first", []byte("k"), []byte("v"), 5, false)
+	e.Flush()
+	nc := r.Range(1900, 3200)
+	name := func(i int) string {
+		return fmt.Sprintf("collection-%05d-%s", i, "padding-padding-padding"[:r.Intn(22)])
+	}
+	for i := 0; i < nc && !e.Failed(); i++ {
+		n := name(i)
+		e.SetCollection(n, "")
+		if i%11 == 0 {
+			e.SetItem(n, []byte("k"), []byte(fmt.Sprintf("v%d", i)), int32(i+1), false)
+		}
+	}
+	e.Flush()
+	if !e.Failed() {
+		e.Reopen(true)
+	}
+	for round := 0; round < 3 && !e.Failed(); round++ {
+		e.SetItem("first", []byte(fmt.Sprintf("late-%d", round)), []byte("x"), int32(100+round), false)
+		e.Flush()
+		e.Reopen(round%2 == 0)
+	}
+	e.FlushRevert()
+	if !e.Failed() {
+		e.SetItem("first", []byte("after-revert"), []byte("y"), 77, false)
+		e.Flush()
+		e.Reopen(true)
+		e.ReadbackAll(driver.RAscVal)
+	}
+	ctx.Stats["c09.large-root-record-cases"]++
+	ctx.Add(e)
+	return Result{Hash: gen.Mix(9, uint64(idx)), NonTrivial: true, Viol: violOf(e),
+		Sample: map[string]interface{}{"index": idx, "scripted": "large-root-record", "collections": nc, "file_writes": e.F.NWrites}}
 }
 
 func runC09Sweep(ctx *Ctx, idx int, r *gen.R) Result {
@@ -209,8 +254,15 @@ func runC09Sweep(ctx *Ctx, idx int, r *gen.R) Result {
 // collection, (mode 2) leaves it dirty.  Only the property's own rule is judged: every WriteAt of the
 // outer and the nested call goes through the append-only monitor of the instrumented file.
 func runC09Reentrant(ctx *Ctx, idx int, r *gen.R) Result {
+	return runReentrantWrites(ctx, idx, r, idx%3, false)
+}
+
+// runReentrantWrites is the scenario of runC09Reentrant; with decode set (C14) the file is parsed by the
+// independent decoder after every outer Flush that succeeded with all its nested calls: it must be
+// structurally valid and its "data" collection must hold exactly what was set.
+func runReentrantWrites(ctx *Ctx, idx int, r *gen.R, mode int, decode bool) Result {
 	f := vfile.New(fmt.Sprintf("c09r-%d", idx))
-	mode := idx % 3
+	want := map[string][]byte{}
 	var s *gkvlite.Store
 	depth, nested := 0, 0
 	audited := map[string]bool{}
@@ -289,7 +341,11 @@ func runC09Reentrant(ctx *Ctx, idx int, r *gen.R) Result {
 			for k, n := 0, r.Range(1, 6); k < n; k++ {
 				key := []byte(fmt.Sprintf("%c%d-%d", 'a'+r.Intn(6), round, k))
 				f.SetTag("Set")
-				err := data.Set(key, r.Bytes(r.Range(0, 90)))
+				val := r.Bytes(r.Range(0, 90))
+				err := data.Set(key, val)
+				if err == nil {
+					want[string(key)] = val
+				}
 				f.SetTag("")
 				trace = append(trace, fmt.Sprintf("data.Set(%s)", key))
 				if err != nil {
@@ -302,6 +358,23 @@ func runC09Reentrant(ctx *Ctx, idx int, r *gen.R) Result {
 			trace = append(trace, fmt.Sprintf("Flush (mode %d, %d callbacks re-entered so far) -> %v", mode, nested, err))
 			if err != nil {
 				fail("C09/reentrant/flush-error", err.Error())
+			}
+			if decode && err == nil && cbErr == nil && viol == nil && !stopped {
+				b := f.Bytes()
+				img, derr := decoder.Decode(b, int64(len(b)), func(string) decoder.Compare { return bytes.Compare })
+				ctx.Stats["c14.reentrant-images-decoded"]++
+				if derr != nil {
+					viol = &Viol{Sig: "C14/reentrant-callback/structural", Detail: fmt.Sprintf("[store used from inside BeforeItemWrite] the independent decoder rejects the file a successful Flush left: %v", derr), Trace: tail(trace, 30)}
+				} else if dc := img.Colls["data"]; dc == nil || len(dc.Items) != len(want) {
+					viol = &Viol{Sig: "C14/reentrant-callback/state-mismatch", Detail: fmt.Sprintf("[store used from inside BeforeItemWrite] the file decodes to a data collection of another size than the %d items set", len(want)), Trace: tail(trace, 30)}
+				} else {
+					for _, it := range dc.Items {
+						if w, ok := want[string(it.Key)]; !ok || !bytes.Equal(w, it.Val) {
+							viol = &Viol{Sig: "C14/reentrant-callback/state-mismatch", Detail: fmt.Sprintf("[store used from inside BeforeItemWrite] key %q decodes to a value that was not set", it.Key), Trace: tail(trace, 30)}
+							break
+						}
+					}
+				}
 			}
 			if r.P(30) && viol == nil && !stopped {
 				s.Close()
